@@ -58,6 +58,30 @@ CLAIMED = {
             "24 theorems incl. ev_ready_once, ev_second_set_err_nochange, ev_wait_returns_after_ready_with_value, ev_test_not_early, ev_reset, fut_ready_at_nth, fut_callback_once_before_any_return, fut_extra_set_err, fut_values_all_passed, fut_zero_compartments (documented behaviour: no callback for 0 compartments; see DESIGN).",
             "Trusted: Lean kernel; sequential consistency; vsched/projection machinery.",
             "DESIGN.md §5 C09"),
+    "C01": ('Lean 4 inductive-invariant proofs over Model.Sched (a specification automaton of the work-unit life cycle at the granularity of runtime events, pools as bags, any number of units/pools/streams, all interleavings) + T1 skeleton tie of the scheduling / context-switch / life-cycle functions + T3 validation of controlled-scheduler traces of generated work-unit programs against the model',
+            'Theorems once_push_from_unreachable, once_pop_takes_out, once_run_exclusive, once_start_le_one, once_terminated_ran, once_join_after_end, once_units_independent; scenario monitors count starts/finishes/arguments per unit across FIFO/FIFO_WAIT/RANDWS pools, BASIC/BASIC_WAIT/PRIO/RANDWS schedulers, children, unnamed units, tasklets, migration, suspension, cancellation.',
+            'Trusted: Lean kernel; sequential consistency; vsched/hook/projection machinery (vlib/t3_sched.py). The model is a specification automaton: its guards state what the scheduling code may do and T3 checks that every explored execution of the real code is accepted; liveness only as deadlock/livelock freedom on explored schedules.',
+            'DESIGN.md §5 C01'),
+    "C03": ('Lean 4 inductive-invariant proofs over Model.Sched (a specification automaton of the work-unit life cycle at the granularity of runtime events, pools as bags, any number of units/pools/streams, all interleavings) + T1 skeleton tie of the scheduling / context-switch / life-cycle functions + T3 validation of controlled-scheduler traces of generated work-unit programs against the model',
+            'Theorems join_ret_after_term, term_store_is_last, join_sees_completed_target, free_once; every join/free in the scenarios is checked (state TERMINATED, function finished, handle reset) and a joiner that is never released is a detected deadlock. The atomic hand-shake on the request word / p_link is tied by T1 and explored dynamically; a dedicated atomic-level Lean model of it is future work (partial).',
+            'Trusted: Lean kernel; sequential consistency; vsched/hook/projection machinery (vlib/t3_sched.py). The model is a specification automaton: its guards state what the scheduling code may do and T3 checks that every explored execution of the real code is accepted; liveness only as deadlock/livelock freedom on explored schedules.',
+            'DESIGN.md §5 C03'),
+    "C06": ('Lean 4 inductive-invariant proofs over Model.Sched (a specification automaton of the work-unit life cycle at the granularity of runtime events, pools as bags, any number of units/pools/streams, all interleavings) + T1 skeleton tie of the scheduling / context-switch / life-cycle functions + T3 validation of controlled-scheduler traces of generated work-unit programs against the model',
+            'Theorems blocked_eq_owed, blocked_nonneg, blocked_zero_when_none, blocked_unit_counted, blocked_visible_after_count (incl. the lagging decrement of a resumer); every fetch_add/fetch_sub on num_blocked in the traces is compared with the model counter; ABT_xstream_join/free and ABT_finalize are exercised in every scenario with pool total sizes checked after the join. Defect F3 (suspend with pending migration) was found by this accounting and repaired.',
+            'Trusted: Lean kernel; sequential consistency; vsched/hook/projection machinery (vlib/t3_sched.py). The model is a specification automaton: its guards state what the scheduling code may do and T3 checks that every explored execution of the real code is accepted; liveness only as deadlock/livelock freedom on explored schedules.',
+            'DESIGN.md §5 C06'),
+    "C11": ('Lean 4 inductive-invariant proofs over Model.Sched (a specification automaton of the work-unit life cycle at the granularity of runtime events, pools as bags, any number of units/pools/streams, all interleavings) + T1 skeleton tie of the scheduling / context-switch / life-cycle functions + T3 validation of controlled-scheduler traces of generated work-unit programs against the model',
+            'Theorems suspend_not_run_until_resumed, resume_requires_blocked, resume_runs_exactly_once, resume_race_safe, resumed_is_blocked; an external resumer thread resumes units the moment BLOCKED is visible. The directed-switch primitives (yield_to, create_to, suspend_to, resume_yield_to, exit_to ...) are covered by T1 and by the direct blocked->running path of the model; dedicated scenarios for each primitive are future work (partial).',
+            'Trusted: Lean kernel; sequential consistency; vsched/hook/projection machinery (vlib/t3_sched.py). The model is a specification automaton: its guards state what the scheduling code may do and T3 checks that every explored execution of the real code is accepted; liveness only as deadlock/livelock freedom on explored schedules.',
+            'DESIGN.md §5 C11'),
+    "C12": ('Lean 4 inductive-invariant proofs over Model.Sched (a specification automaton of the work-unit life cycle at the granularity of runtime events, pools as bags, any number of units/pools/streams, all interleavings) + T1 skeleton tie of the scheduling / context-switch / life-cycle functions + T3 validation of controlled-scheduler traces of generated work-unit programs against the model',
+            'Theorems life_transitions (the exact edge set incl. RUNNING->READY on yield, BLOCKED->RUNNING on directed resume, READY->TERMINATED on cancellation), exit_or_cancel_terminates, cancel_only_at_sched_point, free_once, revive_runs_once_more, terminated_is_frozen.',
+            'Trusted: Lean kernel; sequential consistency; vsched/hook/projection machinery (vlib/t3_sched.py). The model is a specification automaton: its guards state what the scheduling code may do and T3 checks that every explored execution of the real code is accepted; liveness only as deadlock/livelock freedom on explored schedules.',
+            'DESIGN.md §5 C12'),
+    "C13": ('Lean 4 inductive-invariant proofs over Model.Sched (a specification automaton of the work-unit life cycle at the granularity of runtime events, pools as bags, any number of units/pools/streams, all interleavings) + T1 skeleton tie of the scheduling / context-switch / life-cycle functions + T3 validation of controlled-scheduler traces of generated work-unit programs against the model',
+            "Theorems mig_push_goes_to_associated, mig_pool_changes_only_by_migration, mig_only_when_requested, mig_still_once; scenario monitors: after a migration request the unit next runs from the target pool, callback exactly once, rejections for the own pool. ABT_thread_migrate's stream selection (defect F2, repaired) is tied by T1.",
+            'Trusted: Lean kernel; sequential consistency; vsched/hook/projection machinery (vlib/t3_sched.py). The model is a specification automaton: its guards state what the scheduling code may do and T3 checks that every explored execution of the real code is accepted; liveness only as deadlock/livelock freedom on explored schedules.',
+            'DESIGN.md §5 C13'),
 }
 NOT_YET = "machinery for this property is not built yet (work in progress; see DESIGN.md §10 build order)"
 
